@@ -80,9 +80,12 @@ CLAIMS = {
               'TIE: all programs of length <= 2 (thorough: +6000 of length 3 per object) over objects of 0..5 bytes between neighbours in six '
               'forms are run on the implementation and compared with io.BytesIO; one in five also on the extracted models (exact results), the '
               'zlib decisions being recorded and passed as oracle; random 14-30 step programs on objects up to 1.3 MB through the public API. '
-              'PARTIAL: for the Zlib decompresser (with/without LazyLooseStream) and CallbackStreamWrapper the executable model exists '
-              '(Streams.zsd_step) and is checked by correspondence, but its simulation theorem is not proved yet; zlib itself is an oracle '
-              'whose laws are validated against the real module on every run.'),
+              'C07_decompresser_simulation: the Zlib decompresser (Streams.zsd_step: internal buffer, _pos, switch to the re-loosened cache, slow '
+              'forward/rewind path), for EVERY decompressor oracle, chunk size > 0 and program of in-range operations, returns exactly the '
+              'in-memory results unless a call fails loudly. When model and implementation disagree without a BytesIO deviation, the check extends '
+              'the disagreeing programs (all one-op and many two-op extensions) to find a concrete failing program. '
+              'PARTIAL: CallbackStreamWrapper is modelled as a pass-through; out-of-range seeks on the decompresser (clamping) are tested, not '
+              'proved; zlib itself is an oracle whose laws are validated against the real module on every run; LazyLooseStream retries are in C04.'),
         design='4/C07'),
     'C08': dict(
         technique='Coq: lookup theorem independent of the pinned snapshot + listing theorem (+ refuted stale variant) + multi-handle histories',
